@@ -296,7 +296,7 @@ func (g *gen) opAliasRoleHolder() bool {
 	}
 	for _, p := range pairs {
 		tok, nb := p[0], p[1]
-		g.do(g.sys(oracle.FnSetRole, x.a, tok, []byte(oracle.RoleNFTAddQty), []byte(oracle.RoleNFTBurn), []byte(oracle.RoleNFTAddURI), []byte(oracle.RoleNFTUpdateAtt)))
+		g.setRoles(x.a, tok, oracle.RoleNFTAddQty, oracle.RoleNFTBurn, oracle.RoleNFTAddURI, oracle.RoleNFTUpdateAtt) // only what is missing (App. C E5)
 		g.do(g.user(oracle.FnNFTAddQty, x.a, x.a, bigGas, tok, nb, []byte{5}))
 		g.do(g.user(oracle.FnNFTBurn, x.a, x.a, bigGas, tok, nb, []byte{1}))
 		g.do(g.user(oracle.FnNFTAddURI, x.a, x.a, bigGas, tok, nb, []byte("u")))
